@@ -112,3 +112,48 @@ def tags_platform(chunk=None, timeout_ms=None):
         q = "dep_logic.tags.tags:EnvSpec._evaluate_platform" if c["name"].startswith("score") else "dep_logic.tags.platform:Platform.compatible_tags"
         verify.verify_cases(ix, th, q, [c], loop_specs=c.get("loop_specs"), report=rep, timeout_ms=timeout_ms)
     return rep
+
+
+# ---------------------------------------------------------------- C08
+def tags_python(chunk=None, timeout_ms=None):
+    from pyvc import extract, verify
+    from pyvc.theories.envspec import EnvTheory
+    from contracts import tags_python as C
+    ix = extract.Index()
+    th = EnvTheory(ix)
+    pairs = C.universe()
+    cases = list(C.cases(th, pairs))
+    if chunk is not None:
+        k, n = chunk
+        cases = cases[k::n]
+    c = C.ParseByShape(ix)
+    return verify.verify_cases(ix, th, C.Q, cases, use_contracts=[c.target], contracts={c.target: c}, timeout_ms=timeout_ms)
+
+
+# ---------------------------------------------------------------- C16
+def tags_compare(which, chunk=None, timeout_ms=None):
+    import z3
+    from pyvc import extract, verify
+    from pyvc.theories.envspec import EnvTheory
+    from contracts import tags_compare as C
+    from contracts import tags_python as PY
+    ix = extract.Index()
+    th = EnvTheory(ix)
+    if which == "widen":
+        cases = list(C.widen_cases(th, PY.universe()))
+        if chunk is not None:
+            cases = cases[chunk[0]::chunk[1]]
+        c = PY.ParseByShape(ix)
+        return verify.verify_cases(ix, th, "law:C16.widen-python", cases, use_contracts=[c.target], contracts={c.target: c}, timeout_ms=timeout_ms)
+    if which == "compare":
+        cases = list(C.compare_cases(th))
+        if chunk is not None:
+            cases = cases[chunk[0]::chunk[1]]
+        return verify.verify_cases(ix, th, C.QC, cases, timeout_ms=timeout_ms)
+    rep = verify.Report()
+    rep.functions["law:C16.nested-rules"] = {"hash": None, "mode": "lemma over the C09 rules", "paths": 0, "cases": 0}
+    for name, hyps, goal in C.nested_rule_cases():
+        st, secs, be, m = verify.solve(hyps, goal, timeout_ms)
+        rep.add(f"law:C16.nested-rules#lemma.{name}", st, secs, be, model={"z3_model": str(m)[:500]} if st == "sat" else None)
+        rep.functions["law:C16.nested-rules"]["cases"] += 1
+    return rep
